@@ -47,6 +47,45 @@ fn kinds(files: &[String], prefix: &str) -> String {
     k.join("+")
 }
 
+/// verdict over the key=value lines of a survivor (solo) or holder (shared) post-mortem
+pub fn classify_survivor(kv: &BTreeMap<String, Vec<String>>, prefix: &str, shared: bool) -> (Option<String>, String) {
+    let get = |k: &str| kv.get(k).map(|v| v.join(";")).unwrap_or_default();
+    let mut class: Option<String> = None;
+    let mut detail = String::new();
+    let list1 = get("list1");
+    let dead_in = |l: &str| l.contains("Dead");
+    // the holder itself is alive and listed; a solo survivor has no node while listing
+    let alive_expected = if shared { 1 } else { 0 };
+    if list1.matches("Alive").count() > alive_expected {
+        class = Some("dead_node_reported_alive".into());
+    } else if list1.starts_with("err") || list1.contains("Undefined") || list1.contains("Inaccessible") {
+        class = Some(format!("node_list_{}", list1.replace(':', "_")));
+    } else if get("cleanup").contains("Err") {
+        let e = get("cleanup");
+        let e = e.split("Err(").nth(1).unwrap_or("").trim_end_matches(')').to_string();
+        class = Some(format!("cleanup_failed_{}", e));
+    } else if dead_in(&get("list2")) {
+        class = Some("cleanup_incomplete_node_still_dead".into());
+    } else if shared {
+        if get("foreign_data") != "ok" {
+            class = Some("survivor_saw_corrupted_data".into());
+        } else if get("usability") != "ok" {
+            class = Some(format!("survivor_ports_unusable_{}", get("usability")));
+        }
+    } else if get("residue_after_cleanup") != "0" {
+        let files = kv.get("residue_file").cloned().unwrap_or_default();
+        class = Some(format!("residue_{}{}", owner_class(&files, prefix), if list1 == "ok:" { ":node_not_listed" } else { "" }));
+        detail = format!("left behind: {} | ", kinds(&files, prefix));
+    } else if get("service_exists_after_cleanup") != "Ok(false)" {
+        class = Some("service_of_last_user_still_exists".into());
+    } else if get("usability") != "ok" {
+        class = Some(format!("unusable_{}", get("usability").split(':').next().unwrap_or("")));
+    } else if get("residue_final") != "0" {
+        class = Some("residue_after_reuse".into());
+    }
+    (class, detail)
+}
+
 pub struct Trial {
     pub stop: Option<Stop>,
     pub class: Option<String>,
@@ -74,16 +113,16 @@ pub fn trial(exe: &std::path::Path, scenario: &str, k: usize, markers: bool) -> 
     t.child_files_at_kill = listing(&root, &prefix).len();
     let mut attempt = 0;
     loop {
-        let (out, timed_out, code) = step::run_helper(exe, &["survivor".into(), scenario.into(), root.clone(), prefix.clone()], 6000);
+        let (out, timed_out, code) = step::run_helper(exe, &["survivor".into(), scenario.into(), root.clone(), prefix.clone()], if attempt == 0 { 6000 } else { 30_000 });
         let kv = parse_kv(&out);
         let get = |k: &str| kv.get(k).map(|v| v.join(";")).unwrap_or_default();
         if timed_out {
             attempt += 1;
             if attempt < 2 {
-                continue; // a hang has to reproduce to count
+                continue; // a hang has to reproduce (second time with a 30 s watchdog: load is not a hang)
             }
             t.class = Some("survivor_hangs".into());
-            t.detail = format!("the survivor did not finish within 6 s (twice); last step reported: {:?}", out.lines().last().unwrap_or(""));
+            t.detail = format!("the survivor did not finish within 6 s and, repeated, within 30 s; last step reported: {:?}", out.lines().last().unwrap_or(""));
             break;
         }
         if code != 0 || get("step") != "start;done" {
@@ -91,28 +130,9 @@ pub fn trial(exe: &std::path::Path, scenario: &str, k: usize, markers: bool) -> 
             t.detail = format!("survivor exit code {} output {:?}", code, out.chars().take(300).collect::<String>());
             break;
         }
-        let list1 = get("list1");
-        if list1.contains("Alive") {
-            t.class = Some("dead_node_reported_alive".into());
-        } else if list1.starts_with("err") || list1.contains("Undefined") || list1.contains("Inaccessible") {
-            t.class = Some(format!("node_list_{}", list1.replace(':', "_")));
-        } else if get("cleanup").contains("Err") {
-            let e = get("cleanup");
-            let e = e.split("Err(").nth(1).unwrap_or("").trim_end_matches(')').to_string();
-            t.class = Some(format!("cleanup_failed_{}", e));
-        } else if get("list2").contains("Dead") {
-            t.class = Some("cleanup_incomplete_node_still_dead".into());
-        } else if get("residue_after_cleanup") != "0" {
-            let files = kv.get("residue_file").cloned().unwrap_or_default();
-            t.class = Some(format!("residue_{}{}", owner_class(&files, &prefix), if list1 == "ok:" { ":node_not_listed" } else { "" }));
-            t.detail = format!("left behind: {} | ", kinds(&files, &prefix));
-        } else if get("service_exists_after_cleanup") != "Ok(false)" {
-            t.class = Some("service_of_last_user_still_exists".into());
-        } else if get("usability") != "ok" {
-            t.class = Some(format!("unusable_{}", get("usability").split(':').next().unwrap_or("")));
-        } else if get("residue_final") != "0" {
-            t.class = Some("residue_after_reuse".into());
-        }
+        let (class, detail) = classify_survivor(&kv, &prefix, false);
+        t.class = class;
+        t.detail = detail;
         t.detail.push_str(&out.lines().filter(|l| !l.starts_with("step=")).collect::<Vec<_>>().join(" | ").chars().take(700).collect::<String>());
         break;
     }
@@ -121,6 +141,11 @@ pub fn trial(exe: &std::path::Path, scenario: &str, k: usize, markers: bool) -> 
 }
 
 pub fn run(args: &Args) -> Report {
+    let part = args.str("part", "solo");
+    if part == "second" {
+        return run_second(args);
+    }
+    let shared = part == "shared";
     let exe = std::env::current_exe().unwrap();
     let seed = args.u64("seed", 1) as usize;
     let shard = args.usize("shard", 0);
@@ -131,14 +156,24 @@ pub fn run(args: &Args) -> Report {
     let only_k = args.kv.get("only-k").map(|s| s.parse::<usize>().unwrap());
     let deadline = std::time::Instant::now() + std::time::Duration::from_secs(secs);
     let scen_arg = args.str("scenario", "all");
-    let scenarios: Vec<&str> = if scen_arg == "all" { scen::SCENARIOS.iter().copied().filter(|s| !s.ends_with("_shared")).collect() } else { vec![Box::leak(scen_arg.clone().into_boxed_str())] };
+    let scenarios: Vec<&str> = if scen_arg == "all" { scen::SCENARIOS.iter().copied().filter(|s| s.ends_with("_shared") == shared).collect() } else { vec![Box::leak(scen_arg.clone().into_boxed_str())] };
     let mut rep = Report::new();
     rep.max_samples = 4;
     for sc in scenarios {
         // dry run: count the stops and check the orderly run leaves nothing behind
         let (root, prefix) = dirs("c4dry", 0);
         let envs: Vec<(&str, String)> = if markers { vec![("IOX2_VERIF_MARK", "1".to_string())] } else { vec![] };
+        let mut holder = if shared { Some(Holder::spawn(&exe, sc, &root, &prefix)) } else { None };
+        if let Some(h) = holder.as_mut() {
+            let _ = h.until("ready", 5000);
+        }
         let dry = step::run_child(&exe, &["child".into(), sc.into(), root.clone(), prefix.clone()], &envs, &prefix, &mut |_| Action::Continue);
+        if let Some(mut h) = holder.take() {
+            h.cmd("exit");
+            let _ = h.until("exited", 5000);
+            let _ = h.ch.wait();
+            h.finish();
+        }
         let rest = listing(&root, &prefix);
         remove_all(&root, &prefix);
         if dry.exit_code != Some(0) {
@@ -168,7 +203,18 @@ pub fn run(args: &Args) -> Report {
                 rep.count("crash_points_cut_by_deadline", 1);
                 continue;
             }
-            let t = trial(&exe, sc, k, markers);
+            let mut t = if shared { shared_trial(&exe, sc, k, markers) } else { trial(&exe, sc, k, markers) };
+            if t.class.is_some() {
+                // crash points are deterministic: an outcome that does not repeat on the same point is load noise, not a verdict
+                let again = if shared { shared_trial(&exe, sc, k, markers) } else { trial(&exe, sc, k, markers) };
+                if again.class != t.class {
+                    rep.count("outcomes_not_reproduced", 1);
+                    rep.notes.push(format!("{} k={}: {:?} then {:?} on the same crash point", sc, k, t.class, again.class));
+                    rep.inconclusive += 1;
+                    t = again;
+                    t.class = None;
+                }
+            }
             let Some(stop) = t.stop else {
                 rep.inconclusive += 1;
                 continue;
@@ -188,8 +234,285 @@ pub fn run(args: &Args) -> Report {
                         &class,
                         format!("C04:{}:{}:{}", sc, ph, class),
                         format!("scenario {} killed before its stop k={} {} (phase {}): {} | {}", sc, k, stop.descriptor(), ph, class, t.detail),
-                        Json::obj().set("scenario", sc).set("k", k).set("stop", stop.descriptor()).set("phase", ph).set("replay_args", format!("c04 --scenario {} --only-k {}{}", sc, k, if markers { " --markers" } else { "" })),
+                        Json::obj().set("scenario", sc).set("k", k).set("stop", stop.descriptor()).set("phase", ph).set("replay_args", format!("c04 --part {} --scenario {} --only-k {}{}", part, sc, k, if markers { " --markers" } else { "" })),
                     );
+                }
+            }
+        }
+    }
+    rep
+}
+
+// ---------------------------------------------------------------------------------------------
+// shared scenarios: a holder process keeps using the service while the victim is killed
+
+struct Holder {
+    ch: std::process::Child,
+    rx: std::sync::mpsc::Receiver<String>,
+}
+
+impl Holder {
+    fn spawn(exe: &std::path::Path, scenario: &str, root: &str, prefix: &str) -> Holder {
+        use std::io::BufRead;
+        use std::process::{Command, Stdio};
+        let mut ch = Command::new(exe).args(["holder", scenario, root, prefix]).env("IOX2_LOG_LEVEL", "FATAL").stdin(Stdio::piped()).stdout(Stdio::piped()).stderr(Stdio::null()).spawn().expect("spawn holder");
+        let out = ch.stdout.take().unwrap();
+        let (tx, rx) = std::sync::mpsc::channel();
+        std::thread::spawn(move || {
+            for l in std::io::BufReader::new(out).lines().map_while(Result::ok) {
+                if tx.send(l).is_err() {
+                    break;
+                }
+            }
+        });
+        Holder { ch, rx }
+    }
+    /// collects lines until `step=<what>`; None on timeout / holder death
+    fn until(&mut self, what: &str, ms: u64) -> (String, bool) {
+        let t0 = std::time::Instant::now();
+        let mut acc = String::new();
+        loop {
+            let left = ms.saturating_sub(t0.elapsed().as_millis() as u64);
+            match self.rx.recv_timeout(std::time::Duration::from_millis(left.max(1))) {
+                Ok(l) => {
+                    let hit = l == format!("step={}", what);
+                    acc.push_str(&l);
+                    acc.push('\n');
+                    if hit {
+                        return (acc, true);
+                    }
+                }
+                Err(_) => return (acc, false),
+            }
+            if t0.elapsed().as_millis() as u64 > ms {
+                return (acc, false);
+            }
+        }
+    }
+    fn cmd(&mut self, c: &str) {
+        use std::io::Write;
+        if let Some(i) = self.ch.stdin.as_mut() {
+            let _ = writeln!(i, "{}", c);
+            let _ = i.flush();
+        }
+    }
+    fn finish(mut self) {
+        let _ = self.ch.kill();
+        let _ = self.ch.wait();
+    }
+}
+
+/// holder up -> victim killed at stop k -> holder post-mortem -> holder leaves -> nothing may remain
+pub fn shared_trial(exe: &std::path::Path, scenario: &str, k: usize, markers: bool) -> Trial {
+    let (root, prefix) = dirs(&format!("c4s{}", &scenario[..2]), k);
+    let mut t = Trial { stop: None, class: None, detail: String::new(), child_files_at_kill: 0 };
+    let mut h = Holder::spawn(exe, scenario, &root, &prefix);
+    let (_, ok) = h.until("ready", 5000);
+    if !ok {
+        h.finish();
+        remove_all(&root, &prefix);
+        return t; // inconclusive: the holder did not come up
+    }
+    let before = listing(&root, &prefix);
+    let envs: Vec<(&str, String)> = if markers { vec![("IOX2_VERIF_MARK", "1".to_string())] } else { vec![] };
+    let r = step::run_child(exe, &["child".into(), scenario.into(), root.clone(), prefix.clone()], &envs, &prefix, &mut |s: &Stop| if s.k == k { Action::Kill } else { Action::Continue });
+    t.stop = r.killed_at.clone();
+    if r.killed_at.is_none() {
+        h.finish();
+        remove_all(&root, &prefix);
+        return t;
+    }
+    t.child_files_at_kill = listing(&root, &prefix).len().saturating_sub(before.len());
+    h.cmd("check");
+    let (out, ok) = h.until("checked", 8000);
+    let kv = parse_kv(&out);
+    if !ok {
+        let alive = matches!(h.ch.try_wait(), Ok(None));
+        t.class = Some(if alive { "survivor_hangs".into() } else { "survivor_crashed".into() });
+        t.detail = format!("the holder did not finish its post-mortem; output so far: {:?}", out.chars().take(400).collect::<String>());
+        h.finish();
+        remove_all(&root, &prefix);
+        return t;
+    }
+    let (class, detail) = classify_survivor(&kv, &prefix, true);
+    t.class = class;
+    t.detail = detail;
+    if t.class.is_none() {
+        // nothing owned solely by the dead node may remain next to what the holder had before
+        let after = listing(&root, &prefix);
+        let extra: Vec<String> = after.iter().filter(|f| !before.contains(f)).cloned().collect();
+        if !extra.is_empty() {
+            t.class = Some(format!("residue_{}", owner_class(&extra, &prefix)));
+            t.detail = format!("left behind next to the survivor's own files: {} | ", kinds(&extra, &prefix));
+        }
+    }
+    t.detail.push_str(&out.lines().filter(|l| !l.starts_with("step=")).collect::<Vec<_>>().join(" | ").chars().take(700).collect::<String>());
+    h.cmd("exit");
+    let (_, ok) = h.until("exited", 5000);
+    if t.class.is_none() {
+        if !ok {
+            t.class = Some("survivor_hangs_in_shutdown".into());
+        } else {
+            let _ = h.ch.wait();
+            let rest = listing(&root, &prefix);
+            if !rest.is_empty() {
+                t.class = Some(format!("residue_after_last_user_{}", owner_class(&rest, &prefix)));
+                t.detail = format!("after the surviving last user left: {} | {}", kinds(&rest, &prefix), t.detail);
+            }
+        }
+    }
+    h.finish();
+    remove_all(&root, &prefix);
+    t
+}
+
+// ---------------------------------------------------------------------------------------------
+// second crash: the first cleaner is killed at stop j of its cleanup, a second survivor finishes
+
+/// victim killed at its stop k, first cleaner killed at its stop j (j = 0: dry run, returns the number of stops)
+pub fn second_trial(exe: &std::path::Path, scenario: &str, k: usize, j: usize) -> (Trial, usize, Option<Stop>) {
+    let (root, prefix) = dirs(&format!("c4c{}", &scenario[..2]), k * 10_000 + j);
+    let r = step::run_child(exe, &["child".into(), scenario.into(), root.clone(), prefix.clone()], &[], &prefix, &mut |s: &Stop| if s.k == k { Action::Kill } else { Action::Continue });
+    let mut t = Trial { stop: r.killed_at.clone(), class: None, detail: String::new(), child_files_at_kill: 0 };
+    if r.killed_at.is_none() {
+        remove_all(&root, &prefix);
+        return (t, 0, None);
+    }
+    t.child_files_at_kill = listing(&root, &prefix).len();
+    let c = step::run_child(exe, &["cleaner1".into(), root.clone(), prefix.clone()], &[], &prefix, &mut |s: &Stop| if j != 0 && s.k == j { Action::Kill } else { Action::Continue });
+    let nstops = c.stops.len();
+    if j == 0 {
+        remove_all(&root, &prefix);
+        return (t, nstops, None);
+    }
+    let Some(cstop) = c.killed_at.clone() else {
+        remove_all(&root, &prefix);
+        t.stop = None;
+        return (t, nstops, None);
+    };
+    let mut attempt = 0;
+    loop {
+        let (out, timed_out, code) = step::run_helper(exe, &["survivor".into(), scenario.into(), root.clone(), prefix.clone()], if attempt == 0 { 6000 } else { 30_000 });
+        let kv = parse_kv(&out);
+        let get = |k: &str| kv.get(k).map(|v| v.join(";")).unwrap_or_default();
+        if timed_out {
+            attempt += 1;
+            if attempt < 2 {
+                continue;
+            }
+            t.class = Some("survivor_hangs".into());
+            t.detail = format!("the second survivor did not finish within 6 s and, repeated, within 30 s; last step reported: {:?}", out.lines().last().unwrap_or(""));
+            break;
+        }
+        if code != 0 || get("step") != "start;done" {
+            t.class = Some("survivor_crashed".into());
+            t.detail = format!("survivor exit code {} output {:?}", code, out.chars().take(300).collect::<String>());
+            break;
+        }
+        let (class, detail) = classify_survivor(&kv, &prefix, false);
+        t.class = class;
+        t.detail = detail;
+        t.detail.push_str(&out.lines().filter(|l| !l.starts_with("step=")).collect::<Vec<_>>().join(" | ").chars().take(700).collect::<String>());
+        break;
+    }
+    remove_all(&root, &prefix);
+    (t, nstops, Some(cstop))
+}
+
+pub fn run_second(args: &Args) -> Report {
+    let exe = std::env::current_exe().unwrap();
+    let seed = args.u64("seed", 1) as usize;
+    let shard = args.usize("shard", 0);
+    let nshards = args.usize("nshards", 1);
+    let stride = args.usize("stride", 1);
+    let secs = args.u64("secs", 60);
+    let only = args.kv.get("only-kj").map(|s| {
+        let (a, b) = s.split_once(',').unwrap();
+        (a.parse::<usize>().unwrap(), b.parse::<usize>().unwrap())
+    });
+    let deadline = std::time::Instant::now() + std::time::Duration::from_secs(secs);
+    let scen_arg = args.str("scenario", "all");
+    let scenarios: Vec<&str> = if scen_arg == "all" { vec!["pubsub", "pubsub_dyn", "event", "reqres", "blackboard"] } else { vec![Box::leak(scen_arg.clone().into_boxed_str())] };
+    let mut rep = Report::new();
+    rep.max_samples = 4;
+    for sc in scenarios {
+        // victim crash points: the first stop of every phase in which all ports exist and data is in flight
+        let (root, prefix) = dirs("c4cdry", 0);
+        let dry = step::run_child(&exe, &["child".into(), sc.into(), root.clone(), prefix.clone()], &[], &prefix, &mut |_| Action::Continue);
+        remove_all(&root, &prefix);
+        if dry.exit_code != Some(0) {
+            rep.inconclusive += 1;
+            rep.notes.push(format!("scenario {} dry run exited with {:?}", sc, dry.exit_code));
+            continue;
+        }
+        let mut ks: Vec<usize> = Vec::new();
+        let mut seen_phase = std::collections::BTreeSet::new();
+        for s in &dry.stops {
+            let pn = phase_name(sc, s.phase);
+            let wanted = !matches!(pn, "node_create" | "service_open_or_create" | "service_create" | "node_drop" | "service_drop" | "-" | "?");
+            if wanted && seen_phase.insert(s.phase) {
+                ks.push(s.k);
+            }
+        }
+        rep.count(&format!("victim_crash_points_{}", sc), ks.len() as u64);
+        for k in ks {
+            if let Some((ok, _)) = only {
+                if ok != k {
+                    continue;
+                }
+            }
+            let (t0, n, _) = second_trial(&exe, sc, k, 0);
+            let Some(vstop) = t0.stop.clone() else {
+                rep.inconclusive += 1;
+                continue;
+            };
+            rep.count("cleaner_stops_total", n as u64);
+            if rep.samples.len() < 4 {
+                rep.sample(Json::obj().set("scenario", sc).set("victim_killed_before", format!("k{} {} phase {}", k, vstop.descriptor(), phase_name(sc, vstop.phase))).set("cleaner_stops", n));
+            }
+            for j in 1..=n {
+                if let Some((_, oj)) = only {
+                    if oj != j {
+                        continue;
+                    }
+                } else if j % nshards != shard || (j / nshards) % stride != seed % stride {
+                    continue;
+                }
+                if std::time::Instant::now() > deadline {
+                    rep.count("crash_points_cut_by_deadline", 1);
+                    continue;
+                }
+                let (mut t, _, cstop) = second_trial(&exe, sc, k, j);
+                if t.class.is_some() {
+                    let (again, _, _) = second_trial(&exe, sc, k, j);
+                    if again.class != t.class {
+                        rep.count("outcomes_not_reproduced", 1);
+                        rep.notes.push(format!("{} k={} j={}: {:?} then {:?} on the same crash points", sc, k, j, t.class, again.class));
+                        rep.inconclusive += 1;
+                        t.class = None;
+                        t.stop = None;
+                    }
+                }
+                let (Some(_), Some(cstop)) = (t.stop.clone(), cstop) else {
+                    rep.inconclusive += 1;
+                    continue;
+                };
+                rep.execs += 1;
+                rep.nontrivial += 1;
+                rep.count("second_crash_points", 1);
+                rep.distinct(vkit::fnv_str(&format!("{}:{}:{}:{}", sc, k, j, cstop.descriptor())));
+                match t.class {
+                    None => rep.count("outcome_clean", 1),
+                    Some(class) => {
+                        rep.count(&format!("outcome_{}", class.split('[').next().unwrap().split(':').next().unwrap()), 1);
+                        let ph = phase_name(sc, vstop.phase);
+                        rep.violation(
+                            &class,
+                            format!("C04:{}+cleaner_killed:{}:{}", sc, ph, class),
+                            format!("scenario {} killed before its stop k={} {} (phase {}), first cleaner killed before its stop j={} {}: {} | {}", sc, k, vstop.descriptor(), ph, j, cstop.descriptor(), class, t.detail),
+                            Json::obj().set("scenario", sc).set("k", k).set("j", j).set("cleaner_stop", cstop.descriptor()).set("phase", ph).set("replay_args", format!("c04 --part second --scenario {} --only-kj {},{}", sc, k, j)),
+                        );
+                    }
                 }
             }
         }
